@@ -165,7 +165,7 @@ func exec(plAny any, sched *simrt.Tape) *sim.Outcome {
 // past them and reports another class first if there is one, so that a known
 // defect does not hide a new one in the same run.
 var triaged = map[string]bool{
-	"C10/relay-set":                true,
+	"C10/disabled-relay-added":     true,
 	"C10/legacy-relay-missing":     true,
 	"C10/legacy-relay-gas-limit":   true,
 	"C10/legacy-document-rejected": true,
